@@ -12,7 +12,7 @@ use std::sync::{
 	OnceLock,
 };
 
-type Hook = Box<dyn Fn(&'static str) + Send + Sync>;
+type Hook = Box<dyn Fn(&'static str, &'static str) + Send + Sync>;
 
 static HOOK: OnceLock<Hook> = OnceLock::new();
 static STREAM_RING_CAPACITY: AtomicUsize = AtomicUsize::new(0);
@@ -25,8 +25,15 @@ pub fn set_hook(hook: Hook) {
 /// A yield point named `site`.
 #[inline]
 pub fn point(site: &'static str) {
+	point_in(site, "");
+}
+
+/// A yield point named `site` inside code that is generic over a resource
+/// type; `tag` is that type's name, so a harness can tell the arenas apart.
+#[inline]
+pub fn point_in(site: &'static str, tag: &'static str) {
 	if let Some(hook) = HOOK.get() {
-		hook(site);
+		hook(site, tag);
 	}
 }
 
